@@ -145,6 +145,64 @@ MOS += [
 ]
 
 
+# ---- index symmetry: what insert_doc adds under a value class, remove_doc removes under the same class
+PARSE = r"^discr\(call (hnsw_backend::)?parse_indexable_numeric\)$"
+ISNAN = r"^call core::f64::<impl f64>::is_nan$"
+GUARDS = {
+    "numeric NaN": [Arm(PARSE, {"1"}, name="value parses as f64"), Arm(ISNAN, {"otherwise"}, name="value is NaN")],
+    "numeric non-NaN": [Arm(PARSE, {"1"}, name="value parses as f64"), Arm(ISNAN, {"0"}, name="value is not NaN")],
+    "non-numeric": [Arm(PARSE, {"0"}, name="value does not parse")],
+}
+
+
+def _self_field(fn, b, _txt):
+    from vlib.mirflow import origin as _o
+    import vlib.mir as _M
+    a0 = _M._split_top(b.args)[0] if b.args else ""
+    return "arg(_1: &mut" in _o(fn, a0)
+
+
+STRUCTS = {
+    "numeric_docs_by_key": (Ev(r"= HashMap::<String, RoaringTreemap>::entry\(", kind="call", also=_self_field, name="numeric_docs_by_key.entry(k)"),
+                            Ev(r"= HashMap::<String, RoaringTreemap>::get_mut::<String>\(", kind="call", also=_self_field, name="numeric_docs_by_key.get_mut(k)")),
+    "by_key_numeric": (Ev(r"= HashMap::<String, BTreeMap<(hnsw_backend::)?OrderedF64, RoaringTreemap>>::entry\(", kind="call", name="by_key_numeric.entry(k)"),
+                       Ev(r"= HashMap::<String, BTreeMap<(hnsw_backend::)?OrderedF64, RoaringTreemap>>::get_mut::<String>\(", kind="call", name="by_key_numeric.get_mut(k)")),
+    "by_key_lex": (Ev(r"= HashMap::<String, BTreeMap<String, RoaringTreemap>>::entry\(", kind="call", name="by_key_lex.entry(k)"),
+                   Ev(r"= HashMap::<String, BTreeMap<String, RoaringTreemap>>::get_mut::<String>\(", kind="call", name="by_key_lex.get_mut(k)")),
+    "by_key_value": (Ev(r"= HashMap::<String, HashMap<String, RoaringTreemap>>::entry\(", kind="call", name="by_key_value.entry(k)"),
+                     Ev(r"= HashMap::<String, HashMap<String, RoaringTreemap>>::get_mut::<String>\(", kind="call", name="by_key_value.get_mut(k)")),
+}
+
+
+def symmetry(F):
+    out = []
+    ins = FnCheck(F, MI + "insert_doc")
+    rem = FnCheck(F, MI + "remove_doc")
+    if ins.fn is None or rem.fn is None:
+        return Result("inconclusive", "insert_doc/remove_doc not found")
+    for sname, (ev_i, ev_r) in STRUCTS.items():
+        if ins.count(ev_i) == 0 or rem.count(ev_r) == 0:
+            out.append(Result("inconclusive", "pattern for %s matched nothing (insert %d, remove %d)" % (sname, ins.count(ev_i), rem.count(ev_r))))
+            continue
+        for gname, arms in GUARDS.items():
+            ri = ins.reachable(ev_i, assume=arms)
+            rr = rem.reachable(ev_r, assume=arms)
+            q = ri.queries + rr.queries
+            sec = ri.seconds + rr.seconds
+            a, b = ri.verdict == "holds", rr.verdict == "holds"
+            smp = {"kind": "SYMMETRY", "structure": sname, "value_class": gname, "insert_adds": a, "remove_removes": b}
+            if a == b:
+                out.append(Result("holds", "%s / %s: insert=%s remove=%s" % (sname, gname, a, b), queries=q, seconds=sec, sample=smp))
+            else:
+                out.append(Result("violated", "index asymmetry: for a %s value, insert_doc %s %s but remove_doc %s it" % (
+                    gname, "adds to" if a else "does not touch", sname, "removes from" if b else "does not remove from"), queries=q, seconds=sec, sample=smp))
+    return out
+
+
+MOS.append(MO("O11.4/symmetry", "MetadataInvertedIndex: for every index structure and value class (non-numeric, numeric NaN, numeric non-NaN) remove_doc un-indexes exactly where insert_doc indexes",
+              symmetry, functions=[("hnsw_backend.rs", "insert_doc"), ("hnsw_backend.rs", "remove_doc")]))
+
+
 def run(tier, seed, notes):
     obls = run_mir_obligations("C11", tier, MOS, notes)
     obls += run_kani_group("C11", tier, "lib", {"hnsw_backend.rs": "hnsw_backend_proofs.rs", "hnsw_index.rs": "hnsw_index_proofs.rs", "simd.rs": "simd_proofs.rs"}, HARNESSES, jobs=2, notes=notes)
